@@ -190,7 +190,7 @@ type c03TypeChoice struct{ typ, format string }
 func c03ScalarType(r *rand.Rand) c03TypeChoice {
 	switch k := r.Intn(20); {
 	case k < 8:
-		return c03TypeChoice{"integer", c03Pick(r, []string{"int8", "int16", "int32", "int64", "", "", "int", "uint8"})}
+		return c03TypeChoice{"integer", c03Pick(r, []string{"int8", "int16", "int32", "int64", "", "", "int", "uint8", "int8", "int16", "int32", "int64", "", "byte"})}
 	case k < 11:
 		return c03TypeChoice{"number", c03Pick(r, []string{"float", "double", "", "", "decimal"})}
 	case k < 13:
@@ -613,7 +613,7 @@ func (c03) Gen(r *rand.Rand, tier string, i int) any {
 		}
 		return c03Text(r, c03TypeChoice{d.Type, d.Format})
 	}
-	nocc := []int{0, 1, 1, 1, 1, 1, 2, 2, 3}[r.Intn(9)]
+	nocc := []int{0, 0, 1, 1, 1, 1, 1, 2, 2, 3}[r.Intn(10)]
 	if d.In == "path" {
 		in.PathValue = Bs(c03PathSafe(text()))
 		return in
@@ -630,6 +630,9 @@ func (c03) Gen(r *rand.Rand, tier string, i int) any {
 		}
 		name := d.Name
 		v := text()
+		if r.Intn(9) == 0 {
+			v = ""
+		}
 		if j < nocc-1 && r.Intn(3) == 0 {
 			v = c03Pick(r, []string{"", "zzz", "1", "999999"})
 		}
@@ -1076,6 +1079,47 @@ func c03DefaultCoq(d *c03Decl, formats strfmt.Registry) string {
 	return "(Some (DScalar " + s + "))"
 }
 
+// The validations of a `type: string` parameter (format, enum, pattern, lengths) are defined on strings.
+// The oracle puts to the validate library: the typed value where the library classifies the Go type
+// itself (strfmt.Date, DateTime, Duration, Base64, ObjectId, plain string); otherwise the text form
+// (the string of a named string type such as strfmt.Email; MarshalText of any other registered type).
+func c03TextForm(v reflect.Value) (string, bool) {
+	if v.Kind() == reflect.String {
+		return v.String(), true
+	}
+	switch v.Interface().(type) {
+	case strfmt.Date, strfmt.DateTime, strfmt.Duration, strfmt.Base64, strfmt.ObjectId:
+		return "", false
+	}
+	if m, ok := v.Interface().(encoding.TextMarshaler); ok {
+		if b, err := m.MarshalText(); err == nil {
+			return string(b), true
+		}
+	}
+	return "", false
+}
+
+func c03ValidationForm(val interface{}, d *c03Decl) interface{} {
+	v := reflect.ValueOf(val)
+	switch {
+	case d.Type == "string" && v.Type() != reflect.TypeOf(""):
+		if s, ok := c03TextForm(v); ok {
+			return s
+		}
+	case d.Type == "array" && d.ItemType == "string" && v.Kind() == reflect.Slice && v.Type().Elem() != reflect.TypeOf(""):
+		out := make([]string, v.Len())
+		for i := range out {
+			s, ok := c03TextForm(v.Index(i))
+			if !ok {
+				return val
+			}
+			out[i] = s
+		}
+		return out
+	}
+	return val
+}
+
 func c03OverflowFloat32(x float64) bool {
 	if x < 0 {
 		x = -x
@@ -1213,7 +1257,7 @@ func (c03) Run(inAny any) any {
 			return
 		}
 		p := env.param
-		res := validate.NewParamValidator(&p, formats).Validate(val)
+		res := validate.NewParamValidator(&p, formats).Validate(c03ValidationForm(val, d))
 		if res != nil && res.HasErrors() {
 			obs.Valid = -1
 			if e, ok := res.Errors[0].(oaerrors.Error); ok {
@@ -1338,6 +1382,17 @@ func (c03) Coq(inAny any, obsAny any) string {
 }
 
 func (c03) Classify(inAny any, obsAny any) []string {
+	in, obs := inAny.(c03In), obsAny.(c03Obs)
+	// F-C03-4: a default that does not conform to the declared type (outside the description language) is
+	// consulted and the binder panics in reflect instead of answering an error
+	if in.Kind == "bind" && obs.Panicked && obs.DefCoq == "(Some DIll)" && strings.HasPrefix(obs.Panic, "reflect") {
+		return []string{"binder.ill_typed_default_consulted"}
+	}
+	// F-C03-6: the validate library's type validator does not know strfmt.ULID: every bound ulid value is rejected
+	if in.Kind == "bind" && (in.Decl.Format == "ulid" || in.Decl.ItemFormat == "ulid") && obs.Status == 422 && obs.Code == 601 &&
+		strings.Contains(obs.Msg, "must be of type ulid: \"\"") {
+		return []string{"binder.ulid_rejected_by_type_validator"}
+	}
 	return nil
 }
 
@@ -1369,7 +1424,16 @@ func c03TypeClass(d *c03Decl) string {
 		if cf == "" {
 			cf = "nocf"
 		}
-		return "array-" + cf + "/" + sc(d.ItemType, d.ItemFormat)
+		item := sc(d.ItemType, d.ItemFormat)
+		switch {
+		case strings.HasPrefix(item, "int"):
+			item = "int"
+		case strings.HasPrefix(item, "string:"):
+			item = "string:fmt"
+		case item == "float" || item == "double" || item == "number-noformat":
+			item = "number"
+		}
+		return "array-" + cf + "/" + item
 	}
 	return sc(d.Type, d.Format)
 }
@@ -1419,19 +1483,28 @@ func (c03) Category(inAny any, obsAny any) (string, bool) {
 	if d.In == "formData" && in.Multipart {
 		loc = "formData-multipart"
 	}
+	// the flags that decide absent/empty cases; for present values only the raw-query stream is marked
 	flags := ""
-	if d.Required {
-		flags += "+req"
-	}
-	if d.Default != nil {
-		if obs.DefCoq == "(Some DIll)" {
-			flags += "+illdefault"
-		} else {
-			flags += "+default"
+	if sit == "absent" || sit == "empty" {
+		if d.Required {
+			flags += "+req"
+		}
+		if d.Default != nil {
+			if obs.DefCoq == "(Some DIll)" {
+				flags += "+illdefault"
+			} else {
+				flags += "+default"
+			}
+		}
+		if d.AllowEmpty && sit == "empty" {
+			flags += "+allowempty"
 		}
 	}
 	if in.RawQuery != nil {
-		flags += "+rawquery"
+		loc = "query-raw"
+	}
+	if d.In == "header" && d.Name != http.CanonicalHeaderKey(d.Name) {
+		loc = "header-noncanonical"
 	}
 	cat := fmt.Sprintf("bind/%s/%s/%s%s/%s", loc, c03TypeClass(d), sit, flags, obs.Outcome)
 	nontrivial := occ > 0 || d.Required || d.Default != nil
